@@ -81,6 +81,11 @@ class SList:
     def get(s, k):
         if isinstance(k, slice) and k.start is None and k.stop is None and k.step == -1 and not s.tail:
             return SList(s.n, s.name, src=s.src or s, rev=not s.rev)
+        if is_conc(k) and not isinstance(k, slice) and k == -1 and not s.rev:
+            if s.tail:
+                return s.tail[-1]
+            if getattr(s, 'last', None) is not None:
+                return s.last                     # the generic last element the invariant rule provides
         raise Unsupported('indexing a symbolic list')
 
 
